@@ -114,7 +114,10 @@ fn c01_borrowed(rng: &mut Rng, n: u64, rep: &mut Report) {
 			}
 		})*}
 	}
-	bitslices!((u8, Lsb0), (u8, Msb0), (u16, Lsb0), (u16, Msb0), (u32, Lsb0), (u32, Msb0), (u64, Lsb0), (u64, Msb0));
+	bitslices!((u8, Lsb0), (u8, Msb0), (u16, Lsb0), (u16, Msb0), (u32, Lsb0), (u32, Msb0));
+	// 64-bit store words exist on 64-bit targets only
+	#[cfg(target_pointer_width = "64")]
+	bitslices!((u64, Lsb0), (u64, Msb0));
 }
 
 /// Largest representable counts must encode without panicking (thorough, release build).
@@ -132,7 +135,7 @@ fn c01_limits(rep: &mut Report) {
 		Err(p) => rep.violation("encode-panic:Vec<()>-max", format!("Vec<()> of 2^32-1 elements: encode panicked: {p}"), "{}".into()),
 	}
 	let r = catch(|| {
-		let bv: BitVec<u64, Lsb0> = BitVec::repeat(true, (1 << 29) - 1);
+		let bv: BitVec<u32, Lsb0> = BitVec::repeat(true, (1 << 29) - 1);
 		let e = bv.encode();
 		(e.len(), e[..5].to_vec(), e[e.len() - 8..].to_vec())
 	});
@@ -142,9 +145,9 @@ fn c01_limits(rep: &mut Report) {
 		Ok((len, head, tail)) => {
 			let mut spec_head = Vec::new();
 			compact_encode((1u128 << 29) - 1, &mut spec_head);
-			let words = ((1usize << 29) - 1 + 63) / 64;
-			let last = (u64::MAX >> 1).to_le_bytes();
-			if len != spec_head.len() + words * 8 || head[..spec_head.len()] != spec_head[..] || tail != last {
+			let words = ((1usize << 29) - 1 + 31) / 32;
+			let last = [0xffu8, 0xff, 0xff, 0xff, 0xff, 0xff, 0xff, 0x7f];
+			if len != spec_head.len() + words * 4 || head[..spec_head.len()] != spec_head[..] || tail != last {
 				rep.violation("wire-format:BitVec-max", format!("BitVec of 2^29-1 bits: len {len} head {} tail {}", hex(&head), hex(&tail)), "{}".into());
 			}
 		},
@@ -163,12 +166,12 @@ pub fn c01(ctx: &Ctx) {
 		let mut rng = ctx.rng_for(ops.name);
 		note_types(&mut rep, ops);
 		for i in 0..n {
-			let case = gen_case(ops, &mut rng, i % 4 == 0);
+			let case = gen_case(ops, &mut rng, i % 4 == 0 || ctx.is_slow());
 			rep.begin(|| format!("C01 {} {}", ops.name, hex(&case.bytes)));
 			c01_value(ops, &case, &mut rep);
 		}
 	}
-	if ctx.shard == 0 {
+	if ctx.shard == ctx.nshards - 1 {
 		let mut rng = ctx.rng_for("borrowed");
 		c01_borrowed(&mut rng, ctx.budget(1500, 30_000), &mut rep);
 	}
